@@ -527,3 +527,10 @@ package j5schema
 //@   free requires allPkgsOK()
 //@   modifies nothing
 //@   ensures usable: result1 == nil ==> result0 == nil || rootOK(result0)
+
+// list rules of float fields are read from the arm matching the proto kind (C04)
+//@ func buildScalarType
+//@   ensures float.list: result1 == nil && fdKind(src) == 2 ==> typeis(result0, *schema_j5pb.Field_Float) && as(*schema_j5pb.Field_Float, result0).Float.Format == schema_j5pb.FloatField_FORMAT_FLOAT32
+//@   |   && (ext.list != nil && typeis(ext.list.Type, *list_j5pb.FieldConstraint_Float) ==> as(*schema_j5pb.Field_Float, result0).Float.ListRules == as(*list_j5pb.FieldConstraint_Float, ext.list.Type).Float)
+//@   ensures double.list: result1 == nil && fdKind(src) == 1 ==> typeis(result0, *schema_j5pb.Field_Float) && as(*schema_j5pb.Field_Float, result0).Float.Format == schema_j5pb.FloatField_FORMAT_FLOAT64
+//@   |   && (ext.list != nil && typeis(ext.list.Type, *list_j5pb.FieldConstraint_Double) ==> as(*schema_j5pb.Field_Float, result0).Float.ListRules == as(*list_j5pb.FieldConstraint_Double, ext.list.Type).Double)
